@@ -10,6 +10,8 @@ import (
 	"encoding/json"
 	"errors"
 	"fmt"
+	"hash/fnv"
+	"io"
 	"net"
 	"runtime"
 	"strings"
@@ -646,6 +648,8 @@ func (e *Explorer) Run(script []string) *Trace {
 		}
 		return false
 	}
+	closeNotify := false
+	silentPeer := scriptHash(script)%8 == 0
 	// react reads what the server sends until it is quiescent (blocked reading), has closed, or is stuck.
 	react := func() (closed bool) {
 		deadline := time.Now().Add(4 * time.Second)
@@ -653,11 +657,17 @@ func (e *Explorer) Run(script []string) *Trace {
 		spins := 0
 		for {
 			progressed := false
-			if ca.Buffered() > 0 {
+			// The TLS layer reads ahead: a record (the close_notify, typically) may sit inside tlsConn with nothing
+			// left in the connection's buffer, so over TLS every turn polls tlsConn without blocking.
+			if ca.Buffered() > 0 || tlsConn != nil {
 				var n int
 				var err error
 				if tlsConn != nil {
-					_ = tlsConn.SetReadDeadline(time.Now().Add(50 * time.Millisecond))
+					if ca.Buffered() > 0 {
+						_ = tlsConn.SetReadDeadline(time.Now().Add(50 * time.Millisecond))
+					} else {
+						_ = tlsConn.SetReadDeadline(time.Now().Add(-time.Second))
+					}
 					n, err = tlsConn.Read(buf)
 				} else {
 					_ = ca.SetReadDeadline(time.Now().Add(50 * time.Millisecond))
@@ -693,6 +703,17 @@ func (e *Explorer) Run(script []string) *Trace {
 						if ca.PeerClosed() && ca.Buffered() == 0 {
 							return true
 						}
+						if tlsConn != nil && errors.Is(err, io.EOF) && !closeNotify {
+							// close_notify: the server ended its sending direction and is closing (it may linger
+							// a bounded while for the peer's close). Most runs answer like a real peer - by
+							// closing too; a script-determined sample stays silent, so the server has to close
+							// on its own.
+							closeNotify = true
+							addEv(Ev{T: "close-notify"})
+							if !silentPeer {
+								_ = ca.CloseWrite()
+							}
+						}
 					}
 				}
 			}
@@ -702,7 +723,11 @@ func (e *Explorer) Run(script []string) *Trace {
 			if ca.PeerClosed() && ca.Buffered() == 0 {
 				return true
 			}
-			if cb.ReadBlocked() && ca.Buffered() == 0 && !pendingEstablished() {
+			if cb.ReadBlocked() && ca.Buffered() == 0 && !closeNotify && !pendingEstablished() {
+				// a closing server half-closes before it blocks reading (it lingers for the peer's close)
+				if ca.PeerClosed() {
+					continue
+				}
 				return false
 			}
 			if time.Now().After(deadline) {
@@ -824,6 +849,15 @@ func (e *Explorer) Run(script []string) *Trace {
 	e.settle(tr, ca, cb, false)
 	tr.WireC2S, tr.WireS2C = ca.WireOut(), ca.WireIn()
 	return tr
+}
+
+func scriptHash(script []string) uint32 {
+	h := fnv.New32a()
+	for _, x := range script {
+		_, _ = h.Write([]byte(x))
+		_, _ = h.Write([]byte{0})
+	}
+	return h.Sum32()
 }
 
 // settle waits (bounded) until the server side of the run has finished: connection closed by the server and, for an
